@@ -21,6 +21,10 @@ class UserSeq(abc.Sequence):
     def __len__(self):
         return len(self._items)
 
+    def __iter__(self):
+        # explicit: the Sequence mixin would iterate by indexing, and a read through iteration would be logged as an index read
+        return iter(self._items)
+
 
 class UserColl(abc.Collection):
     def __init__(self, items=()):
@@ -285,7 +289,7 @@ def make_spy_classes(spy):
         out[n] = mk(CLS[n], n, indexable=False)
     for n in ('dict', 'defaultdict', 'OrderedDict', 'Counter'):
         out[n] = mk(CLS[n], n, mapping=True)
-    out['UserSeq'] = mk(UserSeq, 'UserSeq', iterable=False)
+    out['UserSeq'] = mk(UserSeq, 'UserSeq')
     out['UserColl'] = mk(UserColl, 'UserColl', indexable=False)
     out['UserIter'] = mk(UserIter, 'UserIter', sized=False, indexable=False)
     out['UserSizedIter'] = mk(UserSizedIter, 'UserSizedIter', indexable=False)
